@@ -88,125 +88,6 @@ Proof. intros [pc ? ? ? ? ? ?]; unfold io_handing; simpl. destruct pc; try congr
 Lemma atacq_rl : forall pc, is_atacq pc = true -> io_rl pc = true.
 Proof. destruct pc; simpl; try congruence. Qed.
 
-Section Step.
-Variable P : params.
-
-Ltac l0_facts HL0 :=
-  destruct HL0 as [[R1 R2] [O1 O2] [D1 D2]]; cbn [sh io wk] in *.
-
-Ltac list_simp :=
-  repeat match goal with
-  | H : ?l ++ [_] = [] |- _ => exfalso; exact (app_one_nonnil _ _ _ H)
-  | H : length (_ ++ [_]) = 1 |- _ => apply len1_app_one in H
-  | |- _ ++ [_] <> [] => apply app_one_nonnil
-  | H : context [length (_ ++ [_])] |- _ => rewrite len_app_one in H
-  | |- context [length (_ ++ [_])] => rewrite len_app_one
-  end.
-
-Definition lockmark (j : nat) := True.
-
-Ltac inst_locks :=
-  repeat match goal with
-  | H : context [wpc (?w ?j)] |- _ =>
-      is_var j;
-      lazymatch goal with
-      | _ : lockmark j |- _ => fail
-      | R2 : forall j : nat, rlock _ = Some (TW j) <-> _, O2 : forall j : nat, olock _ = Some (TW j) <-> _,
-        D2 : forall j : nat, dlock _ = Some (TW j) <-> _ |- _ =>
-          pose proof (R2 j); pose proof (O2 j); pose proof (D2 j); assert (lockmark j) by exact I
-      end
-  end.
-
-Ltac rew_pcs :=
-  repeat match goal with
-  | H : wpc (?w ?j) = _ |- _ => rewrite H in *
-  | E : requests _ = _ :: _ |- _ => rewrite E in *
-  | E : requests _ = [] |- _ => rewrite E in *
-  | E : queue _ = _ |- _ => rewrite E in *
-  | E : connected _ = _ |- _ => rewrite E in *
-  end.
-
-Ltac slv := solve [ intuition (eauto; try discriminate; try congruence; try lia) ].
-
-(* forward chaining: discharge premises that are immediate *)
-Ltac fwd :=
-  repeat match goal with
-  | H : ?A -> _ |- _ =>
-      match type of A with
-      | Prop => let HA := fresh in
-                assert (HA : A) by (first [ assumption | reflexivity | lia | discriminate | congruence ]);
-                specialize (H HA); clear HA
-      end
-  end.
-
-Ltac owner_contra :=
-  repeat match goal with
-  | H : ?x <> ?x |- _ => exfalso; apply H; reflexivity
-  | Hx : forall j : nat, wk_owner (wpc (?w j)) = false, Hw : ?w ?me = _ |- _ =>
-      let X := fresh in pose proof (Hx me) as X; rewrite Hw in X; discriminate X
-  | Hx : forall j : nat, wk_owner (wpc (?w j)) = false, H : wk_owner (wpc (?w ?k)) = true |- _ =>
-      rewrite (Hx k) in H; discriminate H
-  | Hx : forall j : nat, j <> ?me -> wk_owner (wpc (?w j)) = false, H : wk_owner (wpc (?w ?k)) = true, N : ?k <> ?me |- _ =>
-      rewrite (Hx k N) in H; discriminate H
-  end.
-
-Definition rlmark (b : bool) := True.
-
-(* program-point facts: who must hold requests_lock *)
-Ltac pc_facts :=
-  repeat match goal with
-  | H : is_c2 (wpc ?x) = true |- _ =>
-      lazymatch goal with _ : wk_rl (wpc x) = true |- _ => fail | _ => pose proof (is_c2_rl _ H) end
-  | H : is_sc (wpc ?x) = true |- _ =>
-      lazymatch goal with _ : wk_rl (wpc x) = true |- _ => fail | _ => pose proof (is_sc_rl _ H) end
-  | H : postpop (wpc ?x) = true |- _ =>
-      lazymatch goal with _ : wk_rl (wpc x) = true |- _ => fail | _ => pose proof (postpop_rl _ H) end
-  | H : io_handing ?i = true |- _ =>
-      lazymatch goal with _ : io_rl (ipc i) = true |- _ => fail | _ => pose proof (handing_rl _ H) end
-  | H : is_atacq ?pc = true |- _ =>
-      lazymatch goal with _ : io_rl pc = true |- _ => fail | _ => pose proof (atacq_rl _ H) end
-  end.
-
-Ltac iff_fwd :=
-  repeat match goal with
-  | H : ?A <-> ?B |- _ =>
-      first [ let HB := fresh in assert (HB : B) by (first [assumption | reflexivity]); apply (proj2 H) in HB; clear H
-            | let HA := fresh in assert (HA : A) by (first [assumption | reflexivity]); apply (proj1 H) in HA; clear H
-            | match B with
-              | false = true => let HN := fresh in assert (HN : ~ A) by (let X := fresh in intro X; apply (proj1 H) in X; discriminate X); clear H
-              end ]
-  end.
-
-Ltac fin0 :=
-  bool_hyps; cbn in *; list_simp;
-  try solve [ eauto ];
-  try slv.
-
-Ltac uniq_goal :=
-  try match goal with
-  | |- wk_owner (wpc (?w ?j)) = false => destruct (wk_owner (wpc (w j))) eqn:?; [exfalso|reflexivity]
-  end;
-  try match goal with
-  | Hu : forall k, true = true -> wk_owner (wpc (?w k)) = true -> ?me = k,
-    X : wk_owner (wpc (?w ?j)) = true, N : ?j <> ?me |- _ =>
-      exfalso; apply N; symmetry; apply Hu; [reflexivity|exact X]
-  end.
-
-Ltac fin1 :=
-  pc_facts; inst_locks; rew_pcs; cbn in *; iff_fwd; fwd; owner_contra; list_simp;
-  try solve [ eauto ];
-  try slv;
-  uniq_goal.
-
-Ltac fin :=
-  fin0;
-  try solve [ fin1 ];
-  match goal with
-  | s : shared |- _ =>
-      destruct (queue s) as [|[|?]] eqn:?; try solve [ fin1 ];
-      destruct (requests s) as [|? [|? ?]] eqn:?; fin1
-  end.
-
 Lemma upd_forall_elim : forall (Q : wkst -> Prop) w me x,
   (forall j, Q (upd w me x j)) -> Q x /\ forall j, j <> me -> Q (w j).
 Proof.
@@ -215,46 +96,10 @@ Proof.
   - intros j Hj. specialize (H j). rewrite upd_other in H; auto.
 Qed.
 
-Ltac upd_hyps :=
-  repeat match goal with
-  | H : forall j : nat, _ (wpc (upd _ _ _ j)) = _ |- _ =>
-      apply (upd_forall_elim (fun y => wk_owner (wpc y) = false)) in H; destruct H
+(* the worker cases are proved in three groups (three files, compiled in parallel) *)
+Definition grp1 (pc : wkpc) : nat :=
+  match pc with
+  | WKbPop | WKbConn | WKbReq | WKbAt _ => 1
+  | WKbConn2 | WKbSc _ => 2
+  | _ => 0
   end.
-
-Ltac upd_goal me :=
-  unfold upd in *;
-  repeat match goal with
-  | |- context [Nat.eqb ?j me] => destruct (Nat.eqb_spec j me); [subst j|]
-  | H : context [Nat.eqb ?j me] |- _ => destruct (Nat.eqb_spec j me); [subst j|]
-  end.
-
-(* try the frame lemma: all side conditions by computation *)
-Ltac frame_io HL1 :=
-  apply (L1_frame _ _) with (7 := HL1); cbn; try reflexivity; intro; reflexivity.
-Ltac frame_wk HL1 me Hw :=
-  apply (L1_frame _ _) with (7 := HL1); cbn; try reflexivity;
-  let j := fresh "j" in intro j; unfold upd; destruct (Nat.eqb_spec j me); [subst j; rewrite Hw|]; reflexivity.
-
-Theorem L1_step : forall st c st' l, L0 st -> L1 st -> step P st c = Some (st', l) -> L1 st'.
-Proof.
-  intros st c st' l HL0 HL1 Hs.
-  pose proof (io_rl_empty_no_owner st HL0 HL1) as Hemp.
-  destruct c as [e | me e].
-  - step_io Hs; cbn [sh io wk ipc] in *.
-    all: try (frame_io HL1).
-    all: destruct HL1 as [Hu Hq Hqo Hqr Hor Hcv Hc2 Hsc Hat Hh]; l0_facts HL0; cbn [sh io wk ipc] in *.
-    all: split; cbn [sh io wk ipc io_handing is_atacq]; intros.
-    all: fin.
-  - step_wk Hs; cbn [sh io wk ipc] in *.
-    all: try (frame_wk HL1 me Hw).
-    all: destruct HL1 as [Hu Hq Hqo Hqr Hor Hcv Hc2 Hsc Hat Hh].
-    all: pose proof (Hu me) as Hu_me; pose proof (fun k => Hu k me) as Hu_me';
-         pose proof (Hor me) as Hor_me; pose proof (Hc2 me) as Hc2_me; pose proof (Hsc me) as Hsc_me.
-    all: destruct HL0 as [[R1 R2] [O1 O2] [D1 D2]].
-    all: pose proof (R2 me) as R2m; pose proof (O2 me) as O2m; pose proof (D2 me) as D2m.
-    all: cbn [sh io wk ipc] in *; rewrite Hw in *; cbn [wpc] in *.
-    all: split; cbn [sh io wk ipc io_handing is_atacq]; intros.
-    all: upd_hyps; upd_goal me.
-    all: fin.
-Qed.
-End Step.
